@@ -161,16 +161,23 @@ def make_real_node(name, net):
     return node
 
 
-def run_bridge_case(rng, n_workers, order, ops):
+def run_bridge_case(rng, n_workers, order, ops, style="parser"):
     """Bridge real nodes of one test for n workers in the given order; registrations via any copy are seen by all."""
     nets = [f"nets.cluster{i % 2}.net{i}" for i in range(n_workers)]
     base = "all.quicktest.tutorial1.vm1.virtio_blk.smp2.virtio_net.CentOS.8.0.x86_64"
     copies = [make_real_node(f"{base}.{net}", net) for net in nets]
     children = [make_real_node(f"all.quicktest.child.vm1.CentOS.{net}", net) for net in nets]
     # the parser bridges every newly parsed node with all already parsed equivalents
-    for position, index in enumerate(order):
-        for previous in order[:position]:
-            copies[index].bridge_with_node(copies[previous])
+    if style == "parser":
+        for position, index in enumerate(order):
+            for previous in order[:position]:
+                copies[index].bridge_with_node(copies[previous])
+    else:
+        # the update tool bridges the workers' subgraphs afterwards: every ordered pair of equivalent nodes
+        for first in order:
+            for second in order:
+                if first != second:
+                    copies[first].bridge_with_node(copies[second])
     regs = {copies[0]._dropped_cleanup_nodes, copies[0]._picked_by_setup_nodes,
             copies[0]._dropped_setup_nodes, copies[0]._picked_by_cleanup_nodes}
     assert len({id(r) for r in regs}) == 4
@@ -237,7 +244,7 @@ def main():
         elif kind == "register":
             attempt(kind, payload, lambda: run_register_case([tuple(o) for o in payload]), payload, True)
         else:
-            attempt(kind, payload, lambda: run_bridge_case(rng, payload["n"], payload["order"], payload["ops"]), payload, True)
+            attempt(kind, payload, lambda: run_bridge_case(rng, payload["n"], payload["order"], payload["ops"], payload.get("style", "parser")), payload, True)
         sys.exit(verdict.finish())
 
     # 1. enumerated small scope
@@ -297,9 +304,10 @@ def main():
         for order in itertools.permutations(range(n)):
             for _ in range(3 if quick else 30):
                 ops = [(rng.randrange(n), rng.randrange(n), rng.randrange(n)) for _ in range(rng.randint(1, 12))]
-                payload = {"n": n, "order": list(order), "ops": ops}
-                attempt("bridge", payload, lambda: run_bridge_case(rng, n, list(order), ops), ["bridge", payload], True)
-                verdict.count("bridge_cases")
+                for style in ("parser", "all-pairs"):
+                    payload = {"n": n, "order": list(order), "ops": ops, "style": style}
+                    attempt("bridge", payload, lambda: run_bridge_case(rng, n, list(order), ops, style), ["bridge", payload], True)
+                    verdict.count("bridge_cases")
     for key, value in EVALS.items():
         verdict.count("contract_evals_" + key, value)
     verdict.exhaustive = False
